@@ -137,6 +137,36 @@ class C02(Check):
             d2 = rng.sample(d2, 1500)
         for t in d2:
             js.append(dict(kind='expr', tree=tojson(t), n=2, nan=False, assign=None, minimal=True))
+        # scale probes: long flat expressions (more than ten operators in one expression, i.e. temporaries beyond #9)
+        def chain(ops, leaves):
+            t = leaves[0]
+            for i, op in enumerate(ops):
+                t = ('bin', op, t, leaves[(i + 1) % len(leaves)])
+            return t
+        L4 = [('name', 'a'), ('name', 'b'), ('num', '2'), ('ext', 'k')]
+        for ops in (['+'] * 12, ['+', '-', '*'] * 5, ['*', '+'] * 7, ['-'] * 11 + ['<']):
+            for asg in (None, 'r', 'a'):
+                js.append(dict(kind='expr', tree=tojson(chain(ops, L4)), n=2, nan=False, assign=asg, minimal=True))
+        js.append(dict(kind='expr', tree=tojson(('fun', 'SUM', chain(['+'] * 11, [('name', 'a'), ('name', 'b')]))), n=2, nan=False, assign=None, minimal=True))
+
+        def rchain(ops, leaves):      # right-nested: the left operand's intermediate result waits while the right one is evaluated
+            t = leaves[-1]
+            for i, op in enumerate(ops):
+                t = ('bin', op, leaves[i % len(leaves)], t)
+            return t
+        for asg in (None, 'r'):
+            js.append(dict(kind='expr', tree=tojson(('bin', '+', ('bin', '*', ('name', 'a'), ('num', '2')), chain(['+'] * 9, [('name', 'b'), ('num', '2')]))), n=2, nan=False, assign=asg, minimal=True))
+            js.append(dict(kind='expr', tree=tojson(rchain(['+', '-', '*'] * 4, L4)), n=2, nan=False, assign=asg, minimal=True))
+            for f in ('AVG', 'SUM', 'MAX', 'MEDIAN'):     # an aggregate evaluated late in a long expression
+                js.append(dict(kind='expr', tree=tojson(('bin', '+', chain(['+'] * 9, [('name', 'a'), ('num', '2')]), ('fun', f, ('name', 'b')))), n=2, nan=False, assign=asg, minimal=True))
+        # scale probes: long tracks (aggregates and series functions over 17 / 33 observations, NaN through D{})
+        for n in (17, 33):
+            for f in aflib.AGGREGATES:
+                js.append(dict(kind='expr', tree=tojson(('fun', f, ('name', 'a'))), n=n, nan=False, assign=None, minimal=True, long=True))
+                if f not in ('MEDIAN', 'ARGMIN', 'ARGMAX'):
+                    js.append(dict(kind='expr', tree=tojson(('fun', f, ('fun', 'D', ('name', 'b')))), n=n, nan=False, assign=None, minimal=True, long=True))
+            js.append(dict(kind='expr', tree=tojson(('bin', '-', ('name', 'a'), ('fun', 'AVG', ('fun', 'D', ('name', 'a'))))), n=n, nan=False, assign='r', minimal=True, long=True))
+            js.append(dict(kind='expr', tree=tojson(('fun', 'I', ('fun', 'D', ('name', 'a')))), n=n, nan=False, assign=None, minimal=True, long=True))
         cnt = 0
         while cnt < (400 if q else 3000):
             t = random_tree(rng, rng.choice([2, 3] if q else [3, 4, 5]))
@@ -155,7 +185,12 @@ class C02(Check):
         n = job['n']
         sym = inp is None
 
+        longn = bool(job.get('long'))
+
         def val(name, nan=False):
+            if longn and name[0] in 'abx' and name[1:].isdigit() and int(name[1:]) not in (1, n - 2):
+                i = int(name[1:])       # long-track probe: concrete values except two symbolic entries per vector
+                return float(((i * 7 + {'a': 3, 'b': 5, 'x': 1}[name[0]]) % 11) - 4)
             if sym:
                 v = eng.real_or_nan(name, -8, 8) if nan else eng.real(name, -8, 8)
                 if core.is_sym(v):     # exact zero or at least 1/1024 in magnitude: keeps every intermediate value far below the 1e300 sentinels of MIN / MAX
